@@ -2,6 +2,10 @@ package main
 
 import (
 	"fmt"
+	"strings"
+	"time"
+
+	"gitlab.com/gomidi/midi/v2/drivers/testdrv"
 )
 
 // C14: listen options filter exactly their message class and nothing else.
@@ -27,13 +31,70 @@ func init() {
 					cs, _ = cutWire(r, w, r.Intn(4))
 				}
 				emit(Case{Op: liveOp(7, buf, cs), Tags: []string{"stream"}, NonTrivial: true})
+				if i%4 == 0 {
+					// the same stream on a finer clock: deltas of 100, 250, 600 µs ... (stamps are whole milliseconds)
+					emit(Case{Op: "c14.subms unitus=" + fmt.Sprint(r.Pick(100, 250, 300, 600, 700, 999)) + " " + strings.TrimPrefix(liveOp(7, buf, cs), "live.feed "), Tags: []string{"stream-submillisecond"}, NonTrivial: true})
+				}
 			}
 		},
 		Run: runC14,
 	})
 }
 
+// runC14SubMs: the same stream with the chunk deltas counted in microseconds (the driver's time stamps are whole
+// milliseconds since the previous Send): under every option set the messages that remain carry the stamps of the
+// all-options run. Oracle only (the model's clock ticks in milliseconds).
+func runC14SubMs(c Case) (v Verdict) {
+	f := fields(c.Op)
+	var buf, unit int
+	fmt.Sscanf(f["buf"], "%d", &buf)
+	fmt.Sscanf(f["unitus"], "%d", &unit)
+	cs := parseChunks(f["chunks"])
+	run := func(cfg int) (msgs []liveMsg, p string) {
+		p = try(func() {
+			drv := testdrv.New("verif")
+			ins, _ := drv.Ins()
+			outs, _ := drv.Outs()
+			ins[0].Open()
+			outs[0].Open()
+			msgs = listenOnceUnit(drv, ins[0], outs[0], cfg, buf, cs, time.Duration(unit)*time.Microsecond)
+		})
+		return
+	}
+	all, p := run(7)
+	if p != "" {
+		v.Oracle = append(v.Oracle, "panic: "+p+" :: "+short(c.Op))
+		return
+	}
+	v.Counts = map[string]int{}
+	for cfg := 0; cfg < 7; cfg++ {
+		got, p := run(cfg)
+		if p != "" {
+			v.Oracle = append(v.Oracle, "panic: "+p+" :: "+short(c.Op))
+			return
+		}
+		var want []liveMsg
+		for _, mm := range all {
+			switch {
+			case mm.b[0] == 0xFE && cfg&2 == 0, mm.b[0] == 0xF8 && cfg&4 == 0, mm.b[0] == 0xF0 && cfg&1 == 0:
+				continue
+			}
+			want = append(want, mm)
+		}
+		v.Counts["option-runs-submillisecond"]++
+		if !sameLive(got, want) {
+			v.Oracle = append(v.Oracle, fmt.Sprintf("options %d, chunk deltas in units of %d µs: received %s, but all-options run minus the disabled classes is %s :: %s",
+				cfg, unit, short(showLive(got)), short(showLive(want)), short(c.Op)))
+			return
+		}
+	}
+	return
+}
+
 func runC14(c Case, m *Model) (v Verdict) {
+	if strings.HasPrefix(c.Op, "c14.subms ") {
+		return runC14SubMs(c)
+	}
 	f := fields(c.Op)
 	var buf int
 	fmt.Sscanf(f["buf"], "%d", &buf)
